@@ -399,6 +399,89 @@ mut("C03", "json-with-attrs-after-callsite", "logger", [("logger/json_handler.go
 	}""")])
 
 
+# ---- C15 ---------------------------------------------------------------------------------
+mut("C15", "recover-only-errors", "logger", [("logger/httpd.go",
+ """		if err := recover(); err != nil && err != http.ErrAbortHandler {""",
+ """		if err := recover(); err != nil && err != http.ErrAbortHandler {
+			if _, isErr := err.(error); !isErr {
+				if _, isStr := err.(string); !isStr {
+					panic(err)
+				}
+			}""")])
+mut("C15", "drop-status-guard", "logger", [("logger/httpd.go",
+ """			if store.W.Status == 0 {
+				http.Error(store.W, http.StatusText(http.StatusInternalServerError), http.StatusInternalServerError)
+			}""",
+ """			http.Error(store.W, http.StatusText(http.StatusInternalServerError), http.StatusInternalServerError)""")])
+mut("C15", "end-code-from-entry-copy", "logger", [("logger/httpd.go",
+ """	defer func() {
+		if l.h.Enabled(LevelInfo) {
+			if store.W.Status == 0 {
+				store.W.Status = http.StatusOK
+			}""",
+ """	status := &store.W.Status
+	if store.R.Method == http.MethodDelete {
+		status = new(int)
+	}
+	defer func() {
+		if l.h.Enabled(LevelInfo) {
+			if *status == 0 {
+				*status = http.StatusOK
+			}
+			if store.W.Status == 0 {
+				store.W.Status = http.StatusOK
+			}"""),
+ ("logger/httpd.go", """				slog.Int("code", store.W.Status),""", """				slog.Int("code", *status),""")])
+mut("C15", "end-logged-before-recovery", "logger", [("logger/httpd.go",
+ """	defer func() {
+		if l.h.Enabled(LevelInfo) {
+			if store.W.Status == 0 {
+				store.W.Status = http.StatusOK
+			}""",
+ """	defer func() {
+		if l.h.Enabled(LevelInfo) && false {
+			if store.W.Status == 0 {
+				store.W.Status = http.StatusOK
+			}"""),
+ ("logger/httpd.go", """	store.I.HandlerFunc(store)
+}""", """	defer func() {
+		if l.h.Enabled(LevelInfo) {
+			code := store.W.Status
+			if code == 0 {
+				code = http.StatusOK
+			}
+			r := slog.NewRecord(time.Now(), LevelInfo, "", 0)
+			r.AddAttrs(
+				slog.Any("tag", AnsiString{ansi.BlueFG, "REQ_END"}),
+				slog.Int("code", code),
+				slog.Int64("dur", time.Since(start).Milliseconds()),
+				slog.String("ip", remoteIP),
+				slog.String("method", store.R.Method),
+				slog.String("path", store.R.RequestURI),
+				slog.String("tid", store.GetID()),
+			)
+			l.h.Handle(context.Background(), r)
+		}
+	}()
+	store.I.HandlerFunc(store)
+}""")])
+mut("C15", "error-record-without-tid-for-nonstring", "logger", [("logger/httpd.go",
+ """				r.AddAttrs(slog.String("tid", store.GetID()))""",
+ """				if _, ok := err.(string); ok || store.W.Status == 0 {
+					r.AddAttrs(slog.String("tid", store.GetID()))
+				} else {
+					r.AddAttrs(slog.String("tid", ""))
+				}""")])
+mut("C15", "500-also-after-header-for-5xx", "logger", [("logger/httpd.go",
+ """			if store.W.Status == 0 {
+				http.Error(store.W, http.StatusText(http.StatusInternalServerError), http.StatusInternalServerError)
+			}""",
+ """			if store.W.Status == 0 || store.W.Status >= 500 {
+				store.W.Status = 0
+				http.Error(store.W, http.StatusText(http.StatusInternalServerError), http.StatusInternalServerError)
+			}""")])
+
+
 def run(cmd, cwd=None, timeout=900, repo=None):
     env = dict(ENV)
     if repo:
